@@ -570,11 +570,12 @@ type c08V struct {
 }
 
 type c08Res struct {
-	Runs     int64
-	Viol     []c08V
-	Ctr      map[string]int64
-	MaxAlloc uint64
-	MaxDesc  string
+	ResumeFrom int // >0: the job stopped before this fragmentation index (process allocation budget used up)
+	Runs       int64
+	Viol       []c08V
+	Ctr        map[string]int64
+	MaxAlloc   uint64
+	MaxDesc    string
 }
 
 type c08Worker struct {
@@ -602,13 +603,9 @@ func measured(max int, chunks [][]byte) (msgs []any, pv, st string, alloc uint64
 	msgs, pv, st = runReader(max, chunks)
 	runtime.ReadMemStats(&m1)
 	alloc = m1.TotalAlloc - m0.TotalAlloc
-	// No GC in a worker: memory that was never touched costs nothing, while re-used spans would have to be
-	// zeroed (seconds per declared 2 GiB). Processes are recycled at job boundaries instead (see c08Work);
-	// this is only the emergency brake.
-	if m1.HeapAlloc > 96<<30 {
-		runtime.GC()
-		debug.FreeOSMemory()
-	}
+	// No GC in a worker: memory that was never touched costs nothing, while spans re-used after a GC have to be
+	// zeroed (seconds and gigabytes of RSS per declared 2 GiB). Processes are recycled instead (see allCuts/c08Work).
+	c08ProcAlloc = m1.TotalAlloc
 	return
 }
 
@@ -671,7 +668,18 @@ func hexShort(b []byte) string {
 
 func (w *c08Worker) allCuts(max int, stream []byte, twoCuts bool, from, to int, rankBase int64, what, allocClass string) {
 	n := 0
-	in := func() bool { return n >= from && (to == 0 || n < to) }
+	done := 0
+	in := func() bool {
+		if w.res.ResumeFrom > 0 || n < from || (to != 0 && n >= to) {
+			return false
+		}
+		if c08ProcAlloc > c08ProcBudget && done > 0 {
+			w.res.ResumeFrom = n
+			return false
+		}
+		done++
+		return true
+	}
 	if in() {
 		w.one(max, stream, nil, rankBase, what, allocClass, true)
 	}
@@ -693,7 +701,12 @@ func (w *c08Worker) allCuts(max int, stream []byte, twoCuts bool, from, to int, 
 	}
 }
 
-var c08Warmed bool
+var (
+	c08Warmed    bool
+	c08ProcAlloc uint64 // TotalAlloc of this worker process at the last measurement
+)
+
+const c08ProcBudget = 40 << 30 // bytes a worker process may allocate (address space) before it hands its job back
 
 func c08Work(job core.Job) json.RawMessage {
 	var j c08Job
@@ -814,7 +827,6 @@ func TestC08Reader(t *testing.T) {
 	if core.Thorough() {
 		depths = []int{100000, 500000, 1000000, 2000000, 4000000, 8000000, realMax/2 - 4, realMax - 6}
 	}
-	firstDeep := len(jobs)
 	errDir, err := os.MkdirTemp(os.Getenv("VERIF_TMP"), "leafc08err")
 	if err != nil {
 		core.HarnessError("%v", err)
@@ -823,80 +835,94 @@ func TestC08Reader(t *testing.T) {
 		addJob(c08Job{Kind: "deep", Depth: d, ErrFile: filepath.Join(errDir, fmt.Sprintf("deep-%d.stderr", d))}, fmt.Sprintf("deep nesting %d", d))
 		rep.CountDistinct(fmt.Sprintf("deep:%d", d))
 	}
-	results := core.RunSharded("TestC08Reader", jobs, 120*time.Second, "GOTRACEBACK=single")
-	sort.Slice(results, func(a, b int) bool { return results[a].ID < results[b].ID })
 	ag := newAgg()
 	ctr := map[string]int64{}
 	var runs int64
 	var maxAlloc uint64
 	var maxDesc string
 	minCrashDepth, maxOKDepth := -1, -1
-	for _, r := range results {
-		what := meta[r.ID]
-		if r.Hang {
-			rep.Cap("worker exceeded its wall budget on " + what)
-			continue
-		}
-		if r.Crash != "" {
-			var j c08Job
-			json.Unmarshal(jobs[r.ID].Data, &j)
-			cause := "other"
-			crashOut := r.Crash
-			if j.ErrFile != "" {
-				if f, err := os.Open(j.ErrFile); err == nil {
-					head := make([]byte, 24<<10)
-					n, _ := io.ReadFull(f, head)
-					f.Close()
-					if n > 0 {
-						crashOut = string(head[:n])
+	// A worker that has allocated too much (address space, never touched memory) hands a job back half done
+	// (ResumeFrom); the remainder is run in the next round by a fresh process.
+	pending := jobs
+	nResults := 0
+	for round := 0; len(pending) > 0; round++ {
+		results := core.RunSharded("TestC08Reader", pending, 120*time.Second)
+		sort.Slice(results, func(a, b int) bool { return results[a].ID < results[b].ID })
+		nResults += len(results)
+		pending = nil
+		for _, r := range results {
+			what := meta[r.ID]
+			if r.Hang {
+				rep.Cap("worker exceeded its wall budget on " + what)
+				continue
+			}
+			if r.Crash != "" {
+				var j c08Job
+				json.Unmarshal(jobs[r.ID].Data, &j)
+				cause := "other"
+				crashOut := r.Crash
+				if j.ErrFile != "" {
+					if f, err := os.Open(j.ErrFile); err == nil {
+						head := make([]byte, 24<<10)
+						n, _ := io.ReadFull(f, head)
+						f.Close()
+						if n > 0 {
+							crashOut = string(head[:n])
+						}
 					}
 				}
-			}
-			if strings.Contains(crashOut, "stack overflow") || strings.Contains(crashOut, "goroutine stack exceeds") {
-				cause = "stack-overflow.other"
-				if strings.Contains(crashOut, "zeebo/bencode") && strings.Contains(crashOut, "decodeList") {
-					cause = "stack-overflow.bencode-nesting"
+				if strings.Contains(crashOut, "stack overflow") || strings.Contains(crashOut, "goroutine stack exceeds") {
+					cause = "stack-overflow.other"
+					if strings.Contains(crashOut, "zeebo/bencode") && strings.Contains(crashOut, "decodeList") {
+						cause = "stack-overflow.bencode-nesting"
+					}
 				}
+				if j.Kind == "deep" && (minCrashDepth < 0 || j.Depth < minCrashDepth) {
+					minCrashDepth = j.Depth
+				}
+				ag.add("C08.crash."+cause, int64(r.ID), func() (string, any) {
+					return fmt.Sprintf("the process died while the reader (max message size %d = default MaxMetadataSize) read: %s; its output began: %s", realMax, what, firstLines(crashOut, 14)), jobs[r.ID]
+				})
+				ctr["process_deaths"]++
+				continue
 			}
-			if j.Kind == "deep" && (minCrashDepth < 0 || j.Depth < minCrashDepth) {
-				minCrashDepth = j.Depth
+			var res c08Res
+			if err := json.Unmarshal(r.Data, &res); err != nil {
+				core.HarnessError("bad worker result for %s: %v", what, err)
 			}
-			ag.add("C08.crash."+cause, int64(r.ID), func() (string, any) {
-				return fmt.Sprintf("the process died while the reader (max message size %d = default MaxMetadataSize) read: %s; its output began: %s", realMax, what, firstLines(crashOut, 14)), jobs[r.ID]
-			})
-			ctr["process_deaths"]++
-			continue
-		}
-		var res c08Res
-		if err := json.Unmarshal(r.Data, &res); err != nil {
-			core.HarnessError("bad worker result for %s: %v", what, err)
-		}
-		runs += res.Runs
-		for k, v := range res.Ctr {
-			ctr[k] += v
-		}
-		if res.MaxAlloc > maxAlloc {
-			maxAlloc, maxDesc = res.MaxAlloc, res.MaxDesc
-		}
-		if r.ID >= firstDeep {
+			runs += res.Runs
+			for k, v := range res.Ctr {
+				ctr[k] += v
+			}
+			if res.MaxAlloc > maxAlloc {
+				maxAlloc, maxDesc = res.MaxAlloc, res.MaxDesc
+			}
 			var j c08Job
 			json.Unmarshal(jobs[r.ID].Data, &j)
-			if j.Depth > maxOKDepth {
-				maxOKDepth = j.Depth
+			if j.Kind == "deep" {
+				if j.Depth > maxOKDepth {
+					maxOKDepth = j.Depth
+				}
+				ctr["deep_survived"]++
 			}
-			ctr["deep_survived"]++
-		}
-		for _, v := range res.Viol {
-			v := v
-			ag.add(v.Key, v.Rank, func() (string, any) { return v.Desc, jobs[r.ID] })
-			for i := int64(1); i < v.Count; i++ {
-				ag.add(v.Key, v.Rank, nil)
+			if res.ResumeFrom > 0 {
+				j.From = res.ResumeFrom
+				addJob(j, what)
+				pending = append(pending, jobs[len(jobs)-1])
+				ctr["jobs_resumed_in_a_fresh_process"]++
+			}
+			for _, v := range res.Viol {
+				v := v
+				ag.add(v.Key, v.Rank, func() (string, any) { return v.Desc, jobs[r.ID] })
+				for i := int64(1); i < v.Count; i++ {
+					ag.add(v.Key, v.Rank, nil)
+				}
 			}
 		}
 	}
 	os.RemoveAll(errDir)
-	if len(results) != len(jobs) {
-		core.HarnessError("got %d results for %d jobs", len(results), len(jobs))
+	if nResults != len(jobs) {
+		core.HarnessError("got %d results for %d jobs", nResults, len(jobs))
 	}
 	ag.flush(rep)
 	rep.Evaluations = runs
